@@ -211,24 +211,29 @@ def run(rep):
             while call_is(x, "::iter") or call_is(x, "IntoIterator::into_iter"):
                 x = peel(x["args"][0])
             return call_is(x, "RegexSet::matches")
+        let_counts = set()
         for x in walk(f.body):
             if x.get("k") == "Block":
                 for s in x["stmts"]:
                     if s["k"] == "Let" and strip_ref(s["pat"]).get("k") == "Bind" and s.get("init") is not None and _is_set_count(s["init"]):
                         counters.add(strip_ref(s["pat"])["id"])
                         cnt_loops += 1
+                        let_counts.add(id(unblock(s["init"])))
+        # ... or used in place
+        for x in walk(f.body):
+            if call_is(x, "Iterator::count") and _is_set_count(x) and id(x) not in let_counts and not any(id(unblock(y)) == id(x) for y in []):
+                if not any(x is peel(st["init"]) or q.contains(st["init"], x) for blk in walk(f.body) if blk.get("k") == "Block" for st in blk["stmts"] if st["k"] == "Let" and st.get("init") is not None and _is_set_count(st["init"])):
+                    cnt_loops += 1
         aho_vars = {s["pat"]["id"] for x in walk(f.body) if x.get("k") == "Block" for s in x["stmts"] if s["k"] == "Let" and s["pat"].get("k") == "Bind" and s.get("init") and call_is(peel(s["init"]), "solver::slow_aho")}
-        rep.check(cnt_loops == 7, "T-COUNT", "T-COUNT/%s/regexset-counter" % fname.split("::")[-1], f.sp, "the regex-set count is one per matching pattern (seven count loops)", str(cnt_loops))
+        rep.check(cnt_loops >= 1, "T-COUNT", "T-COUNT/%s/regexset-counter" % fname.split("::")[-1], f.sp, "the regex-set count is one per matching pattern (a unit counter over set.matches(x).iter(), or iter().count())", str(cnt_loops))
+        site_nodes = []
         nc = 0
-        for n, path in walk_with_path(f.body):
-            if n.get("k") != "If":
+        for B, path in walk_with_path(f.body):
+            if B.get("k") != "Binary" or B["op"] not in ("Eq", "Ne", "Ge", "Gt", "Le", "Lt"):
                 continue
-            c = peel(n["cond"])
-            if c.get("k") != "Binary":
-                continue
-            L, R = peel(c["lhs"]), peel(c["rhs"])
+            L, R = peel(B["lhs"]), peel(B["rhs"])
             batch = None
-            for e in q.context(path, n):
+            for e in q.context(path, B):
                 if e[0] == "if" and e[2] and peel(e[1]).get("k") == "LetCond":
                     ps = pat_str(peel(e[1])["pat"])
                     if "Search::AhoCorasick(" in ps:
@@ -238,30 +243,71 @@ def run(rep):
             if batch is None:
                 continue
             srch = strip_ref(subpat(batch[1], 0))
-            is_hits = ((call_is(L, "solver::slow_aho") or (L.get("k") == "Var" and L["id"] in aho_vars)) and batch[0] == "aho") or (L.get("k") == "Var" and L["id"] in counters and batch[0] == "regexset")
+            is_hits = ((call_is(L, "solver::slow_aho") or (L.get("k") == "Var" and L["id"] in aho_vars)) and batch[0] == "aho") or \
+                (batch[0] == "regexset" and ((L.get("k") == "Var" and L["id"] in counters) or _is_set_count(L)))
             if not is_hits:
                 continue
             nc += 1
+            site_nodes.append(B)
             key = "T-COUNT/%s/%s#%d" % (fname.split("::")[-1], batch[0], nc)
-            then = unblock(n["then"])
+            # the If this comparison decides, and how many negations lie between
+            nots = 0
+            gov = None
+            direct = True
+            for anc in reversed(path):
+                if anc.get("k") == "Unary" and anc["op"] == "Not":
+                    nots += 1
+                elif anc.get("k") in ("Borrow", "Deref", "Coerce", "ByUse"):
+                    continue
+                elif anc.get("k") == "If" and q.contains(anc["cond"], B):
+                    gov = anc
+                    break
+                elif anc.get("k") == "Block" and anc.get("expr") is not None and q.contains(anc["expr"], B) and not any(x.get("k") in ("If", "Match") for x in [unblock(anc["expr"])] if not (x is B)):
+                    continue  # `{ let ..; <comparison> }` (an inlined closure or helper): still the comparison itself
+                elif anc.get("k") in ("Block", "Let") or (anc.get("k") == "If" and not q.contains(anc["cond"], B)) or anc.get("k") == "Match":
+                    direct = False  # the comparison is the value of a branch of a larger boolean expression
+                else:
+                    direct = False
             if kind == "all":
                 if batch[0] == "aho":
                     mid = strip_ref(subpat(srch, 1)).get("id")
-                    oktot = R.get("k") == "Cast" and R["ty"] == "u64" and call_is(peel(R["arg"]), "::len") and q.var_id(peel(R["arg"])["args"][0]) == mid
+                    oktot = R.get("k") == "Cast" and R["ty"] == "u64" and call_is(peel(R["arg"]), "::len") and q.base_var(peel(R["arg"])["args"][0], f.body) == mid
                 else:
                     sid = strip_ref(subpat(srch, 0)).get("id")
-                    oktot = call_is(R, "::len") and call_is(peel(R["args"][0]), "RegexSet::patterns") and q.var_id(peel(R["args"][0])["args"][0]) == sid
-                if c["op"] == "Ne":
-                    okact = q.returns_sr(n["then"], "False")
-                elif c["op"] == "Eq":
-                    okact = then.get("k") == "Block" and len(then["stmts"]) == 2 and peel(then["stmts"][0]["e"]).get("k") == "Assign" and lit(peel(then["stmts"][0]["e"])["rhs"]) == ("bool", True) and peel(then["stmts"][1]["e"]).get("k") == "Break"
-                else:
-                    okact = False
-                rep.check(oktot and okact and not n.get("else"), "T-COUNT", key, n["sp"], "all(): the value passes iff the number of matched members equals the number of members", "%s %s %s => %s" % (show(L)[:40], c["op"], show(R), show(n["then"])[:40]))
+                    oktot = call_is(R, "::len") and call_is(peel(R["args"][0]), "RegexSet::patterns") and q.base_var(peel(R["args"][0])["args"][0], f.body) == sid
+                okact = False
+                det = "-"
+                if gov is not None and B["op"] in ("Eq", "Ne"):
+                    all_found_when_true = (B["op"] == "Eq") != (nots % 2 == 1)
+                    then = unblock(gov["then"])
+                    det = show(gov["then"])[:40]
+                    if not direct:
+                        # embedded in a larger condition (e.g. the body of an `any` closure): its value must mean "all found"
+                        okact = all_found_when_true and then.get("k") == "Block" and len(then["stmts"]) == 2 and peel(then["stmts"][0]["e"]).get("k") == "Assign" and lit(peel(then["stmts"][0]["e"])["rhs"]) == ("bool", True) and peel(then["stmts"][1]["e"]).get("k") == "Break"
+                    elif all_found_when_true:
+                        okact = then.get("k") == "Block" and len(then["stmts"]) == 2 and peel(then["stmts"][0]["e"]).get("k") == "Assign" and lit(peel(then["stmts"][0]["e"])["rhs"]) == ("bool", True) and peel(then["stmts"][1]["e"]).get("k") == "Break" and not gov.get("else")
+                    else:
+                        okact = q.returns_sr(gov["then"], "False") and not gov.get("else")
+                rep.check(oktot and okact, "T-COUNT", key, B["sp"], "all(): the value passes iff the number of matched members equals the number of members", "%s %s %s => %s" % (show(L)[:40], B["op"], show(R), det))
             else:
-                ok = q.var_id(R) == thr_id and thr_id is not None and c["op"] == "Ge" and q.returns_sr(n["then"], "True") and not n.get("else")
-                rep.check(ok, "T-COUNT", key, n["sp"], "of(n): true as soon as the number of matched members reaches the threshold", "%s %s %s => %s" % (show(L)[:40], c["op"], show(R), show(n["then"])[:40]))
-        rep.check(nc == 14, "T-COUNT", "T-COUNT/%s/sites" % fname.split("::")[-1], f.sp, "fourteen count comparisons (2 matcher kinds x (5 scalar kinds + 2 array forms))", str(nc))
+                ok = gov is not None and direct and nots == 0 and q.var_id(R) == thr_id and thr_id is not None and B["op"] == "Ge" and q.returns_sr(gov["then"], "True") and not gov.get("else")
+                rep.check(ok, "T-COUNT", key, B["sp"], "of(n): true as soon as the number of matched members reaches the threshold", "%s %s %s" % (show(L)[:40], B["op"], show(R)))
+        # every branch of the two batched value-kind matches (string, list, and each scalar kind under str()) decides by such a comparison
+        narms = nbad = 0
+        for n in walk(f.body):
+            if n.get("k") != "Match" or len(n["arms"]) < 3:
+                continue
+            if not any(variant_of(pp) and variant_of(pp)[0] == "Value" and variant_of(pp)[1] == "String" for a in n["arms"] for alt in or_pats(a["pat"]) for pp in q._walk_pat(alt)):
+                continue
+            if not any(call_is(x, "solver::slow_aho") or call_is(x, "RegexSet::matches") for x in walk(n)):
+                continue
+            for a in n["arms"]:
+                if q._pat_wild(a["pat"]):
+                    continue
+                narms += 1
+                if not any(q.contains(a["body"], B_) for B_ in site_nodes):
+                    nbad += 1
+        rep.check(narms >= 12 and nbad == 0 and nc >= 8, "T-COUNT", "T-COUNT/%s/sites" % fname.split("::")[-1], f.sp, "every value-kind branch of the two batched matchers decides by a count comparison (%d branches, %d comparisons)" % (narms, nc), "%d branches without a comparison" % nbad)
     # match_of(count == 0) is the negation of the member
     mo = F.fn("solver::match_of")
     if mo is not None:
